@@ -254,7 +254,7 @@ func ParseGenStderr(stderr string) *GenOutput {
 		return r
 	}
 	for _, line := range strings.Split(stderr, "\n") {
-		if line == "" {
+		if line == "" || strings.HasPrefix(line, "Warning:") {
 			continue
 		}
 		if m := reFailed.FindStringSubmatch(line); m != nil {
